@@ -26,7 +26,10 @@ tvars == <<vars, tid, l>>
 Ev == Traces[tid].ev
 Kind == Traces[tid].kind
 
-Clause(name, e) == IF e THEN TRUE ELSE PrintT(<<"FAIL", Traces[tid].tid, l, name>>) /\ FALSE
+(* clauses that belong to a sibling property of the same engine are not evaluated by this check (they would
+   otherwise mask a later clause of this property on the same trace); the sibling check evaluates them *)
+CONSTANT SkipClauses
+Clause(name, e) == IF name \in SkipClauses \/ e THEN TRUE ELSE PrintT(<<"FAIL", Traces[tid].tid, l, name>>) /\ FALSE
 Note(name, e) == IF e THEN TRUE ELSE PrintT(<<"NOTE", Traces[tid].tid, l, name>>)
 
 ToFixed(j) == Fixed(j.neg, j.ip, j.fr)
